@@ -17,7 +17,7 @@ func init() {
 			"A4 the read buffer is parsed only as buffer[:n]; K1/K2 Chain visits every member once in order, folds Bind results, keeps every Close error; Registry builds one member per factory. " +
 			"Composition over chains follows by induction over the fold K1 establishes.",
 		notDecided: "byte equality as seen by the downstream writer under concurrent injections; option combinations that fail construction; the buffering interceptors (pacing, jitterbuffer, cc pacer) which C01 excludes; ordering between concurrent callers",
-		sels: []sel{s("A0"), s("A1"), s("A2"), s("A3"), sx("A4", buffering), s("K1"), s("K2")},
+		sels: []sel{s("K3", `\|interceptor[.:]`), s("A0"), s("A1"), s("A2"), s("A3"), sx("A4", buffering), s("K1"), s("K2")},
 		assumptions: []string{
 			"go/ssa and go/types model the program faithfully; callees are resolved by type information (static callee or CHA/VTA call graph)",
 			"pion/rtp Header methods are classified by a frozen table read off pion/rtp v1.10.5 (mutators: SetExtension, SetExtensionWithProfile, DelExtension, ClearExtensions, Unmarshal)",
@@ -102,7 +102,7 @@ func init() {
 		explanation: "Decides the structural clauses from which gap-freedom and uniqueness follow: I1 — the extension value derives from the result of one sync/atomic read-modify-write Add(&counter, 1) (never from a separate load, never from Load+Store), and C3 — the counter field is only ever accessed through sync/atomic; I2 — on every path of the writer closure at most one number is allocated, the allocation dominates SetExtension and is not in a loop; " +
 			"A1 — after the extension is set the packet is forwarded exactly once or an error is returned; A3 — nothing else in the caller's header/payload is written; A0 — a stream that did not negotiate the extension gets its writer back unchanged. A single atomic fetch-and-add by 1 hands every caller a distinct consecutive uint32; truncation of consecutive integers to 16 bits is consecutive modulo 2^16.",
 		notDecided:  "a number is consumed when SetExtension fails (ids outside 1..14 / foreign extension profile — outside the quantifier); ordering between allocation and the downstream write of concurrent writers",
-		sels:        []sel{s("I1"), s("I2"), s("C3", `twcc\.HeaderExtensionInterceptor`), s("A1", `twcc\.\(\*HeaderExtensionInterceptor\)`), s("A3", `twcc\.\(\*HeaderExtensionInterceptor\)`), s("A0", `twcc\.\(\*HeaderExtensionInterceptor\)`)},
+		sels:        []sel{s("J3", `\|pkg/twcc[.:]`), s("I1"), s("I2"), s("C3", `twcc\.HeaderExtensionInterceptor`), s("A1", `twcc\.\(\*HeaderExtensionInterceptor\)`), s("A3", `twcc\.\(\*HeaderExtensionInterceptor\)`), s("A0", `twcc\.\(\*HeaderExtensionInterceptor\)`)},
 		assumptions: std,
 	}
 	props["C18"] = &propDef{
@@ -110,14 +110,14 @@ func init() {
 		explanation: "Decides three structural clauses: L1 — every exported Pop* method of JitterBuffer reaches the queue only on the playing branch of the state test and the other branch returns an error (sibling agreement over Pop, PopAtSequence, PopAtTimestamp); L2 — the playout head is only advanced where the queue call's error is known nil (a failed pop does not disturb the buffer); " +
 			"L3 — every Clear resets each root from which queries traverse (PriorityQueue.next, JitterBuffer.packets, RTPBuffer.packets): assigned nil/fresh, element-cleared over the whole range, or delegated — otherwise Find/PopAt/PopAtTimestamp still return what was buffered before Clear.",
 		notDecided:  "sortedness of the linked list for arbitrary push orders (plain < on uint16, not wrap-aware), length bookkeeping, that PopAtSequence advances the head by one whatever sequence was popped, scalar playout state (playoutReady/playoutHead) after Clear(true)",
-		sels:        []sel{s("L1"), s("L2"), s("L3")},
+		sels:        []sel{s("J3", `\|pkg/jitterbuffer[.:]`), s("L1"), s("L2"), s("L3")},
 		assumptions: std,
 	}
 	props["C20"] = &propDef{
 		id: "C20", title: "Sequence-number unwrapping: congruence and non-negativity clauses",
 		explanation: "Decides one clause by abstract interpretation of (*Unwrapper).Unwrap's SSA: J1 — with symbols i (the uint16 input) and L (the previous result), every integer value is tracked as an affine form a·i + b·L + c over ℤ/2^16 (constants reduced modulo 65536, width conversions are class-preserving, φ joins must agree, branches are ignored so the clause holds on every path); at every return the result and the stored state are exactly 1·i + 0·L + 0. This proves for all inputs and all prior states that the value returned is congruent to the input modulo 2^16. J2 — by induction on the state (hypothesis: previous result ≥ 0): every path alternative of the stored state and of the returned value, written as an integer linear form over the previous state and the unsigned quantities, is a sum of non-negative terms or is guarded by a dominating `E >= 0` branch whose E is exactly that linear form; hence the result is non-negative for every input sequence.",
 		notDecided:  "the ±2^15 proximity to the previous result (needs interval reasoning coupled to the half-range predicate), and every NTP clause (float64 rounding, monotonicity, 1 µs round trip) — numerical, not decidable by a structural rule",
-		sels:        []sel{s("J1"), s("J2")},
+		sels:        []sel{s("J3", `\|internal/sequencenumber[.:]`), s("J1"), s("J2")},
 		assumptions: std,
 	}
 }
@@ -129,7 +129,7 @@ func init() {
 		explanation: "Decides the structural clauses the statement singles out: G1 — in every function that walks []*rtcp.RecvDelta with a cursor, no instruction that advances the cursor is control-dependent (post-dominator based, transitively) on a condition derived from a lookup in long-lived state (a comma-ok map lookup on a field, or a (T,bool) lookup predicate such as feedbackHistory.get): the arrival time decoded for a packet is independent of whether neighbouring packets are still in the history; " +
 			"G2 — in every symbol loop, the counter that feeds the attribution key (feedbackHistoryKey.sequenceNumber / acknowledgement.sequenceNumber) is advanced exactly once on every path through the loop body (path counting), or is the range index; F1 — every index into RecvDeltas / packet-derived slices is guarded; E2 — the flag that lets history.delete release the TWCC mapping is actually set.",
 		notDecided:  "arrival-time arithmetic (reference time ×64 ms, 250 µs deltas, RFC 8888 offsets), LRU contents of the sent-packet history, that each sent packet is reported at most once and in send order (value properties of history.buildReport), zero-valued acknowledgements emitted for unknown packets",
-		sels:        []sel{s("G1"), s("G2"), s("F1", `rtpfb\.convertTWCC|FeedbackAdapter|rtpfb\.convert`), so("E2", `rtpfb\.history`), so("E1", `rtpfb\.history`)},
+		sels:        []sel{s("J3", `\|(pkg/rtpfb|internal/cc)[.:]`), s("G1"), s("G2"), s("F1", `rtpfb\.convertTWCC|FeedbackAdapter|rtpfb\.convert`), so("E2", `rtpfb\.history`), so("E1", `rtpfb\.history`)},
 		assumptions: std,
 	}
 	props["C16"] = &propDef{
